@@ -81,14 +81,14 @@ HANDLERS = [
     PK + 'cleveref.h_cref_warning', PK + 'glossaries.h_gls.<locals>.f',
     PK + 'glossaries.h_parse_glsdefs', PK + 'glossaries.get_tokens',
     PK + 'glossaries.cap_all', PK + 'glossaries.cap_all.<locals>.f',
+    PK + 'glossaries.modify_description', PK + 'glossaries.h_newacronym',
+    PK + 'glossaries.h_newglossaryentry',
 ]
 # handlers stored in repl=/end_func= slots that are NOT under contract
 # (represented by the generic contract H only): reported in the evidence
 HANDLERS_ASSUMED = [
     PK + 'amsmath.h_substack (generator iter_token_levels)',
     PK + 'cleveref.h_read_sed (regex driven sed parser)',
-    PK + 'glossaries.h_newacronym / h_newglossaryentry / modify_description'
-    ' / cap_first (first-character capitalisation of a possibly empty token)',
     'yalafi.shell.addpacks.init_module.<locals>.add',
 ]
 
